@@ -218,6 +218,13 @@ def items(ctx):
         ml = maxlen if knd == "solid" else maxlen - 1
         for sh in shapes:
             out.append({"kind": "single", "shape": sh, "material": mname, "npts": npts, "maxlen": ml, "scale": scale})
+    # near-coincident temperatures and their accumulation (wherever the code compares a temperature
+    # difference with a threshold, steps just below/above it and many of them belong in the grid)
+    for mname, knd in mats:
+        if knd != "solid":
+            continue
+        for sh in TINY_SHAPES:
+            out.append({"kind": "tiny", "shape": sh, "material": mname, "npts": npts, "scale": scale, "reps": list(TINY_REPS if ctx.quick else TINY_REPS_THOROUGH)})
     for mname, knd in mats:
         if knd != "solid":
             continue
@@ -331,20 +338,20 @@ def _eval_single(case):
     return vs, st
 
 
-def _obs_diff(a, b):
+def _obs_diff(a, b, tol=TOL):
     if a[0] != b[0]:
         return "outcome %s vs %s" % (a[0], b[0])
     for (ka, va), (kb, vb) in zip(a[1], b[1]):
         if ka != kb:
             return "field %s vs %s" % (ka, kb)
-        if _rel(va, vb) > TOL:
+        if _rel(va, vb) > tol:
             return "%s: %r vs %r" % (ka, va, vb)
     if len(a[1]) != len(b[1]):
         return "different number of observed fields"
     return None
 
 
-def _run_single(shape, matname, knd, scale, T, start, path, ref, bad, st):
+def _run_single(shape, matname, knd, scale, T, start, path, ref, bad, st, check_steps=None):
     Tin, T0 = T[start[0]], T[start[1]]
     solid = knd == "solid"
     # a material without expansion refuses every hot-dimension query when Thot != Tinput, including the
@@ -380,6 +387,8 @@ def _run_single(shape, matname, knd, scale, T, start, path, ref, bad, st):
                     return None
                 # a fluid whose own density function refuses: loud refusal; its dimensions must still stand
                 st["refuse_exc"].add("%s:setTemperature:%s" % (matname, type(e).__name__))
+        if check_steps is not None and k not in check_steps:
+            continue  # long repeated-step paths: the oracle runs at the stated checkpoints only
         if c.temperatureInC != Tc:
             bad("temperature-readback", shape, "temperatureInC reads %r after setTemperature(%r)" % (c.temperatureInC, Tc), start, path[:k])
         cur = path[:k]
@@ -519,6 +528,84 @@ def _run_single(shape, matname, knd, scale, T, start, path, ref, bad, st):
         except Exception as e:
             bad("area-raises", shape, "getArea after hot sets raised %r" % (e,), start, path)
     return obs
+
+
+# ---------------------------------------------------------------------------------------------
+# tiny, repeated temperature steps
+
+TINY_SHAPES = ("circle", "helix")
+TINY_STEPS_C = (1e-11, 1e-9, 1e-6, 1e-4, 0.999e-3, 1.001e-3, 1e-2)  # several magnitudes, incl. both sides of 1e-3 and of Component._TOLERANCE
+TINY_REPS = (1, 10, 1000)
+TINY_REPS_THOROUGH = (1, 10, 1000, 20000)
+TINY_TOL = 1e-12  # k steps of +d against the single jump to T + k*d: same algebra, only rounding differs ...
+TINY_TOL_PER_STEP = 8 * 2.220446049250313e-16  # ... by a few ulp per multiplication (measured: 2e-16 per step)
+
+
+def _eval_tiny(case):
+    """From a grid temperature take k equal steps of +-d (d over several magnitudes), then one ordinary
+    jump; compare with the single jump to the same temperatures and with the closed-form oracle."""
+    shape, matname, scale, n = case["shape"], case["material"], case["scale"], case["npts"]
+    knd = matlib.kind(matlib.cls_of(matname))
+    lo, hi, labels, declared = _range_for(matname, knd)
+    G = matlib.grid(lo, hi, n)
+    ref = _Ref(matname)
+    vs = []
+    st = {"exec": 0, "nontrivial": 0, "steps": 0, "refused_states": 0, "checked_states": 0, "hotsets": 0, "zero_mass": 0, "fvals": set(), "refuse_exc": set(), "_bad_in_exec": False}
+    st["range"] = [lo, hi, labels, declared]
+    st["mat_kind"] = knd
+    if not (ref.expands(G[0], G[n // 2]) and ref.expands(G[0], G[n - 1])):
+        # no expansion correlation: every hot query refuses; covered by the 'single' items
+        st["fvals"] = 0
+        st["refuse_exc"] = []
+        st.pop("_bad_in_exec")
+        return vs, st
+    if "d" in case:
+        combos = [(case["start"], case["sign"], case["d"], case["k"])]
+    else:
+        combos = [(sti, sg, d, k) for sti in ([1, 1], [0, n // 2 + 1]) for sg in (1, -1) for d in TINY_STEPS_C for k in case["reps"]]
+    collapse = case.get("collapse")
+    cur = {}
+
+    def bad(clause, disc, msg, start, path, **kw):
+        if len(vs) >= MAX_V or st["_bad_in_exec"]:
+            return
+        st["_bad_in_exec"] = True
+        cc = {k: case[k] for k in ("kind", "shape", "material", "npts", "scale", "reps")}
+        cc.update(cur)
+        if collapse:
+            cc["collapse"] = True
+        vs.append(core.viol("c03/%s/%s" % (clause, "many" if collapse else disc), "%s(%s) Tinput=%.9g Thot=%.9g, %d steps of %+.3g C (after step %d of the path): %s" % (shape, matname, G[cur["start"][0]], G[cur["start"][1]], cur["k"], cur["sign"] * cur["d"], len(path), msg), cc))
+
+    for sti, sg, d, k in combos:
+        cur.clear()
+        cur.update(start=sti, sign=sg, d=d, k=k)
+        Tin, T0 = G[sti[0]], G[sti[1]]
+        far = G[n - 1] if sti[1] != n - 1 else G[0]
+        # temperature list of this execution: [Tinput, Thot, Thot+-d, ..., Thot+-k*d, far]
+        T = [Tin, T0] + [T0 + sg * j * d for j in range(1, k + 1)] + [far]
+        stepped = list(range(2, k + 3))
+        obs = {}
+        for label, path, checks in (("stepped", stepped, {0, 1, k, k + 1}), ("jump", [k + 1, k + 2], None), ("stepped-short", stepped[:-1], {0, k}), ("jump-short", [k + 1], None)):
+            st["exec"] += 1
+            st["nontrivial"] += 1
+            st["_bad_in_exec"] = False
+            try:
+                obs[label] = _run_single(shape, matname, knd, scale, T, [0, 1], path, ref, bad, st, check_steps=checks)
+            except Exception as e:  # noqa: BLE001
+                if not _raised_in_armi(e):
+                    raise
+                bad("unexpected-exception", "%s/%s" % (shape, type(e).__name__), "the component API raised %r" % (e,), [0, 1], path)
+                obs[label] = None
+        for a, b in (("stepped-short", "jump-short"), ("stepped", "jump")):
+            if obs[a] is not None and obs[b] is not None:
+                dd = _obs_diff(obs[b], obs[a], TINY_TOL + k * TINY_TOL_PER_STEP)
+                if dd:
+                    st["_bad_in_exec"] = False
+                    bad("tiny-steps-path-dependence", matname, "end state after the repeated steps%s differs from the single jump (expected vs observed): %s" % (" and one ordinary jump" if a == "stepped" else "", dd), [0, 1], [])
+    st.pop("_bad_in_exec", None)
+    st["fvals"] = len(st["fvals"])
+    st["refuse_exc"] = sorted(st["refuse_exc"])
+    return vs, st
 
 
 # ---------------------------------------------------------------------------------------------
@@ -709,6 +796,8 @@ def _eval_linked(case):
 def _evaluate_counted(case):
     if case["kind"] == "single":
         return _eval_single(case)
+    if case["kind"] == "tiny":
+        return _eval_tiny(case)
     return _eval_linked(case)
 
 
@@ -749,6 +838,8 @@ def run(ctx):
         allv.extend(vs)
         ctx.count("items_" + it["kind"])
         ctx.count("executions_" + it["kind"], st["exec"])
+        if it["kind"] == "tiny":
+            ctx.count("tiny_step_executions", st["exec"])
         if it["kind"] == "single":
             ctx.count("executions_shape_" + it["shape"], st["exec"])
             ctx.count("executions_material_kind_" + st["mat_kind"], st["exec"])
@@ -778,7 +869,10 @@ def run(ctx):
         materials={k: sorted(n for n, kk in mats if kk == k) for k in ("solid", "fluid", "custom", "void")},
         temperature_ranges_C={m: r[:2] + [r[3]] for m, r in sorted(ranges.items())},
         grid_points=max(it.get("npts", 0) for it in its),
-        max_path_length=max(it["maxlen"] for it in its),
+        max_path_length=max(it.get("maxlen", 0) for it in its),
+        tiny_steps_C=list(TINY_STEPS_C),
+        tiny_step_repetitions=max((it["reps"] for it in its if it["kind"] == "tiny"), default=None),
+        tiny_step_shapes=list(TINY_SHAPES),
         states_checked=tot["checked_states"],
         states_refused=tot["refused_states"],
         hot_setDimension_checks=tot["hotsets"],
@@ -786,6 +880,7 @@ def run(ctx):
     ctx.assumptions += [
         "temperatures are drawn from an n-point grid over the range each material states for its expansion correlation (20-800 C when it states none); errors between grid points or outside the range are not seen",
         "the expansion correlation itself (linearExpansionPercent on a parent-less instance) is the trusted oracle input; its plausibility is C19's subject",
+        "near-coincident temperatures: steps of +-{1e-11 .. 1e-2} C repeated 1/10/1000 times (thorough: also 20000) from two starts, for every expanding solid x 2 shapes, compared with the single jump at 1e-12; other step sizes, longer accumulations and other shapes are not covered for this clause",
         "one valid dimension set per shape class (scaled by a seed-dependent constant); path length bounded",
         "a material that defines no expansion makes every hot-dimension query raise RuntimeError when T != Tinput: counted as refused",
     ]
